@@ -248,6 +248,9 @@ class Message:
         # command classes apply their default flags when instantiated; a
         # message parsed from the network keeps the flags that it arrived with
         msg.header.command_flags = command_flags
+        # typed commands consume their AVP list into attributes; keep a record
+        # of which AVPs were actually received
+        msg._received_avps = {(a.code, a.vendor_id) for a in avps}
 
         return msg
 
